@@ -279,6 +279,10 @@ def run_extraction(ex: Extraction, report):
                 while msk[k] != "{":
                     k += 1
             fe = match_delim(msk, k) + 1
+            if ex.args.get("inner"):
+                # only the statements inside that block (loop/if header dropped)
+                fs = k + 1
+                fe = fe - 1
         elif ex.args.get("end_stmt"):
             fe = _stmt_end(msk, fe)
         t = SrcText.from_file_slice(src, fs, fe)
